@@ -31,10 +31,10 @@ VARIANTS = {
     "rel":   ("gcc",   ["-O2", "-DNDEBUG"]),
     "rel3":  ("gcc",   ["-O3", "-DNDEBUG"]),
     "dbg":   ("gcc",   ["-O1", "-g"]),
-    "asan":  ("clang", ["-O1", "-g", "-fsanitize=address,undefined",
+    "asan":  ("clang", ["-O1", "-g", "-fsanitize=address,undefined", "-fno-sanitize=alignment",
                         "-fno-sanitize-recover=undefined", "-fno-omit-frame-pointer", "-fno-common",
                         "-DBEE2_VERIF_EXACT_BLOB"]),
-    "asanrel": ("clang", ["-O1", "-g", "-DNDEBUG", "-fsanitize=address,undefined",
+    "asanrel": ("clang", ["-O1", "-g", "-DNDEBUG", "-fsanitize=address,undefined", "-fno-sanitize=alignment",
                         "-fno-sanitize-recover=undefined", "-fno-omit-frame-pointer", "-fno-common",
                         "-DBEE2_VERIF_EXACT_BLOB"]),
     "tsan":  ("clang", ["-O1", "-g", "-DNDEBUG", "-fsanitize=thread"]),
